@@ -163,6 +163,38 @@ theorem aborted_leaves_nothing (s : Server) (h : WF s) (wid : Nat) (k : Key) (w 
   have e := abortOp_effect s h wid k w f hf
   exact ⟨e.2.2.1, e.2.1, by rw [e.2.2.2.1 k]; simp, e.2.2.2.2⟩
 
+/-- a lost Foolscap connection (`disconnectOp`: the canary fires every watcher still registered)
+    is exactly the sequence of `abort` steps of the handles registered on that connection, so
+    `aborted_leaves_nothing`, `visible_iff_closed` and `refines_spec` apply to each of them: every
+    upload of the connection that is still in progress loses its incoming file and its reservation,
+    nothing becomes visible, and completed shares are untouched. -/
+theorem disconnect_is_aborts (s : Server) (c : Nat) :
+    disconnectOp s c = run s ((widsOfConn s c).map Op.abort) ∧
+    (WF s → WF (disconnectOp s c) ∧ (disconnectOp s c).final = s.final ∧
+      allocatedSize (disconnectOp s c) ≤ allocatedSize s) := by
+  refine ⟨by simp only [disconnectOp, run, List.foldl_map]; rfl, ?_⟩
+  simp only [disconnectOp]
+  generalize widsOfConn s c = wids
+  induction wids generalizing s with
+  | nil => intro h; exact ⟨h, rfl, Nat.le_refl _⟩
+  | cons wid rest ih =>
+    intro h
+    simp only [List.foldl_cons]
+    cases hf : findWid wid s.incoming with
+    | none =>
+      rw [(findWid_none_effects s wid hf 0 []).2.2]; exact ih s h
+    | some e =>
+      obtain ⟨k, w, f⟩ := e
+      have e := abortOp_effect s h wid k w f hf
+      have r := ih (abortOp s wid) e.1
+      exact ⟨r.1, r.2.1.trans e.2.1, by have := e.2.2.2.2; omega⟩
+
+example :
+    let s := (allocateConn (Server.empty false 0) 1 0 [0, 1] 4 exRec 1000 []).1
+    allocatedSize s = 8 ∧ allocatedSize (closeOp s 0).1 = 4 ∧
+    (disconnectOp (closeOp s 0).1 1).incoming = [] ∧ visible (disconnectOp (closeOp s 0).1 1) (0, 0) = true := by
+  decide
+
 /-- the same for the 30-minute timeout: once the clock passes an upload's deadline the upload is
     gone (file and reservation), nothing becomes visible, and uploads whose deadline has not
     passed are untouched -/
